@@ -18,6 +18,7 @@ import (
 	"encoding/json"
 	"fmt"
 	"hash/fnv"
+	"reflect"
 	"sort"
 	"strings"
 
@@ -612,6 +613,14 @@ func compare(s *source, call *wfake2.Call, cands stampCands) hx.Event {
 		}
 		eq["schema"] = schemaEq(s.info.Schema, gs, true)
 		eq["schemabasic"] = schemaEq(s.info.Schema, gs, false)
+		// forward compatibility with a repair that lets the param carry the proto schema next to the SDK type
+		// (field "SchemaProto"): then the proto must be fully equal and the SDK form equal in all it can express
+		if f := reflect.ValueOf(p).Elem().FieldByName("SchemaProto"); f.IsValid() && f.Kind() == reflect.Ptr && !f.IsNil() {
+			if sp, ok := f.Interface().(*schemapb.CollectionSchema); ok {
+				eq["schema"] = schemaEq(s.info.Schema, sp, true) && eq["schemabasic"] && sp.GetName() == c.Coll
+				eq["schemabasic"] = eq["schemabasic"] && schemaEq(s.info.Schema, sp, false)
+			}
+		}
 		eq["shards"] = p.ShardsNum == s.info.ShardsNum
 		eq["cons"] = p.ConsistencyLevel == s.info.ConsistencyLevel
 		props := kvOrderedEqual(p.Properties, s.info.Properties)
